@@ -67,7 +67,7 @@ FlagsRe  == CatAll(<<One(PLUS), Plus(Chr(In({LM, LPp}))), One(COLON)>>)         
 DotsRe   == Plus(One(DOT))                                                         \* \.+
 
 \* ------------------------------------------------------------------ printing
-\* a printed expression is a sequence of tokens; Print glues them, PrintSp puts
+\* a printed expression is a sequence of tokens; PrintD glues them, PrintSpD puts
 \* a blank between any two (white space between tokens is insignificant)
 RECURSIVE Glue(_, _)
 Glue(ts, sep) == IF ts = <<>> THEN <<>> ELSE IF Len(ts) = 1 THEN ts[1]
@@ -104,8 +104,8 @@ ExprToks(t, D) == FlagToks(t.flags, D) \o SeqToks(t.seq, D)
 
 PrintD(t, D)   == Glue(ExprToks(t, D), <<>>)
 PrintSpD(t, D) == Glue(ExprToks(t, D), <<32>>)
-Print(t)   == PrintD(t, Dev)
-PrintSp(t) == PrintSpD(t, Dev)
+\* what printing an expression object gives (the implementation holds the normal form)
+Shown(t) == PrintD(Norm(t), Dev)
 
 \* ------------------------------------------------------------------- parsing
 \* PEG with white space skipped before every token.  A result is [ok, pos, v].
@@ -203,4 +203,7 @@ ReadNorm(s) == LET r == Parse(s) IN IF r.ok THEN <<Norm(r.v)>> ELSE <<>>
 \* ----------------------------------------------------------------- property
 \* C12: the printed form of (the normal form of) t reads back as the same normal form
 RoundTripOf(t, D) == ReadNorm(PrintD(Norm(t), D)) = <<Norm(t)>>
+\* what re-reading gives under deviation set D, given that the property holds for t without deviations
+ReReadUnder(t, D) == IF PrintD(Norm(t), D) = PrintD(Norm(t), {}) THEN <<Norm(t)>>
+                     ELSE ReadNorm(PrintD(Norm(t), D))
 =============================================================================
